@@ -191,7 +191,7 @@ def run(prop: str, tier: str) -> int:
         sts2 = labelled(rep, max_nodes=3 if quick else 4, d=2 if quick else 3, label="labelled")
         run_states(rep, prop, sts2, "keyed", {}, "c10-clones")
     elif prop == "C15":
-        sts = shapes(rep, max_nodes=4 if quick else 5, k=2, label="typed-shapes")
+        sts = shapes(rep, max_nodes=4 if quick else 6, k=2, label="typed-shapes")
         run_states(rep, prop, sts, "str+typed", {}, "c15")
         run_states(rep, prop, sts if not quick else sts[::2], "keyed+typed", {}, "c15-eq")   # all data compare ==
         if not quick:
@@ -209,7 +209,7 @@ def run(prop: str, tier: str) -> int:
                            "instance, returned class, raised class, StopIteration for stop",
                            "falsy verdicts alternate between False and None"]
     elif prop == "C17":
-        sts = shapes(rep, max_nodes=4 if quick else 5, label="shapes", extra_inv=("InvExport",))
+        sts = shapes(rep, max_nodes=4 if quick else 6, label="shapes", extra_inv=("InvExport",))
         run_states(rep, prop, sts, "str", {}, "c17")
         sts2 = labelled(rep, max_nodes=3 if quick else 4, d=2 if quick else 3, label="labelled-clones")
         run_states(rep, prop, sts2, "str", {}, "c17-clones")
@@ -219,7 +219,7 @@ def run(prop: str, tier: str) -> int:
         rep.assumptions = ["only the emitted text / triples are examined (no Graphviz or mmdc rendering)",
                            "graph node keys are mapped back through the harness registry (data_id / node_id)"]
     elif prop == "C16":
-        sts = shapes(rep, max_nodes=5 if quick else 6, label="shapes")
+        sts = shapes(rep, max_nodes=5 if quick else 7, label="shapes")
         run_states(rep, prop, sts, "str", {}, "c16")
         # clones (a clone may be a last sibling where its twin is not) and typed trees (TypedNode overloads
         # is_last_sibling() as "last of its kind")
